@@ -289,6 +289,36 @@ func c04Race(ev *evidence.Run, tier string) {
 	}
 	reportRace("checkers-as-goroutines", res.Stderr)
 	ev.Nontrivial("race|harness")
+	// (c) concurrent analyzer passes, free-running under the race detector (valid and invalid configurations)
+	{
+		overlay, err := buildSchedOverlay()
+		if err != nil {
+			fmt.Fprintln(os.Stderr, err)
+			os.Exit(2)
+		}
+		abin := filepath.Join(harness.WorkDir(), "sched", "c04an-race")
+		cmd := exec.Command("go", "build", "-race", "-tags", "verif verifsched", "-overlay", overlay, "-o", abin, "./cmd/c04an")
+		cmd.Dir = mcDir
+		cmd.Env = harness.GoEnv()
+		if b, e := cmd.CombinedOutput(); e != nil {
+			fmt.Fprintf(os.Stderr, "build c04an -race: %v\n%s", e, b)
+			os.Exit(2)
+		}
+		res := harness.RunCmd(harness.WorkDir(), append(os.Environ(), "GORACE=halt_on_error=0"), 20*time.Minute, abin, "-free", "40")
+		ev.Eval(1)
+		ev.Nontrivial("race|analyzer-passes")
+		if !strings.Contains(res.Stdout, "FREE-DONE") && !strings.Contains(res.Stderr, "DATA RACE") {
+			fmt.Fprintln(os.Stderr, "c04an -free failed (broken check):", res.Exit, string(tail([]byte(res.Stderr), 1500)))
+			os.Exit(2)
+		}
+		reportRace("analyzer-passes", res.Stderr)
+		for _, l := range strings.Split(res.Stdout, "\n") {
+			if strings.HasPrefix(l, "FREE-VIOLATION") {
+				ev.Violate(evidence.Violation{Key: "analyzer|parallel-passes|init-error-reported-not-exactly-once", What: "concurrent analyzer passes report the initialisation error a different number of times than a sequential run", Observed: l, Replay: map[string]interface{}{"kind": "free-run"}})
+				break
+			}
+		}
+	}
 	// (b) the real CLI built with -race, every concurrency value
 	rbin, err := harness.BuildBin("./cmd/go-critic", "-race")
 	if err != nil {
@@ -360,4 +390,3 @@ func c04Race(ev *evidence.Run, tier string) {
 		}
 	}
 }
-
